@@ -408,7 +408,27 @@ fn corrupt(buf: &mut Vec<u8>) -> String {
         }
         _ => {
             // wrap into nested compound or described values
-            let how = choice(5);
+            let how = choice(6);
+            if how == 5 {
+                // compound headers that promise much and hold little, one inside the other: each
+                // level is 9 bytes and claims tens of thousands of elements; the sizes are honest,
+                // so nothing but the element count is wrong
+                let k = pick(&[3usize, 30, 100, 300, 1000]);
+                let claim = pick(&[65_536u32, 65_536, 65_535, 100_000, 1 << 20, 4096]);
+                let code = pick(&[0xd0u8, 0xd0, 0xd1]);
+                let mut inner = std::mem::take(buf);
+                inner.truncate(64);
+                for _ in 0..k {
+                    let mut outer = Vec::with_capacity(inner.len() + 9);
+                    outer.push(code);
+                    outer.extend_from_slice(&((inner.len() + 4) as u32).to_be_bytes());
+                    outer.extend_from_slice(&claim.to_be_bytes());
+                    outer.extend_from_slice(&inner);
+                    inner = outer;
+                }
+                *buf = inner;
+                return format!("hungry-headers-{:#x}-x{}-claiming-{}", code, k, claim);
+            }
             let depth = if how >= 2 { pick(&[10usize, 200, 2000, 8000, 40000]) } else { pick(&[10usize, 200, 2000, 8000]) };
             let inner = std::mem::take(buf);
             *buf = match how {
